@@ -80,6 +80,17 @@ impl Capture {
         Self { mem, target }
     }
 
+    /// Number of bytes written since the last reset.
+    fn pending(&self) -> usize {
+        let _ = std::io::stderr().flush();
+        let len = unsafe { libc::lseek(self.mem, 0, libc::SEEK_END) };
+        if len < 0 {
+            0
+        } else {
+            len as usize
+        }
+    }
+
     /// Return what was written since the last call and reset.
     fn take(&self, cap: usize) -> (Vec<u8>, usize) {
         let len = unsafe { libc::lseek(self.mem, 0, libc::SEEK_END) };
@@ -284,6 +295,7 @@ fn mode_match(cases: &str, out: &str) {
                 writeln!(w, "{id}\terr\t{}\t", hex(e.as_bytes())).unwrap();
             }
             Ok(Ok(matcher)) => {
+                c2.take(0);
                 let mut bits = String::with_capacity(subj_b.len());
                 let mut pmsg = String::new();
                 for s in &subj_b {
@@ -293,8 +305,14 @@ fn mode_match(cases: &str, out: &str) {
                         let mut io = MatcherIO::new(&deps);
                         matcher.matches(&entry, &mut io)
                     }));
+                    // 'E' = the test wrote a diagnostic while evaluating this subject (and answered false)
+                    let wrote = c2.pending() > 0;
+                    if wrote {
+                        c2.take(0);
+                    }
                     match r {
                         Ok(true) => bits.push('1'),
+                        Ok(false) if wrote => bits.push('E'),
                         Ok(false) => bits.push('0'),
                         Err(_) => {
                             bits.push('P');
